@@ -47,11 +47,27 @@ import (
 // ---------------------------------------------------------------------------------------------------------------
 // names: components are interned numbers 1..; a name is "-" (root) or dot separated numbers
 // ---------------------------------------------------------------------------------------------------------------
+// Components 1..8 are generic with different values; 9..14 carry the SAME value bytes (01) under the types generic, keyword,
+// segment, byte offset, version and an application type >= 65536; 15, 16 are typed siblings of component 1 ("a"). Names that differ
+// only in the type of a component are different names: the tables must keep them apart.
 var compVals = [][]byte{nil, []byte("a"), []byte("b"), []byte("cc"), []byte{}, []byte("d0"), []byte{0xff, 0x00}, []byte("a/b"), []byte("e")}
+var typedComps = map[int]enc.Component{
+	9:  {Typ: enc.TypeGenericNameComponent, Val: []byte{1}},
+	10: {Typ: enc.TypeKeywordNameComponent, Val: []byte{1}},
+	11: {Typ: enc.TypeSegmentNameComponent, Val: []byte{1}},
+	12: {Typ: enc.TypeByteOffsetNameComponent, Val: []byte{1}},
+	13: {Typ: enc.TypeVersionNameComponent, Val: []byte{1}},
+	14: {Typ: 65541, Val: []byte{1}},
+	15: {Typ: enc.TypeKeywordNameComponent, Val: []byte("a")},
+	16: {Typ: 70000, Val: []byte("a")},
+}
 
 func compOf(k int) enc.Component {
 	if k < len(compVals) {
 		return enc.Component{Typ: enc.TypeGenericNameComponent, Val: compVals[k]}
+	}
+	if c, ok := typedComps[k]; ok {
+		return c
 	}
 	return enc.NewNumberComponent(enc.TypeSegmentNameComponent, uint64(k))
 }
@@ -92,23 +108,35 @@ func (n nm) enc() enc.Name {
 	return r
 }
 
-// reverse mapping for dumps
-var compByHash = map[uint64]int{}
+// reverse mapping for dumps: by (type, value), never by hash
+const nComps = 32
+
+var compByKey = map[string]int{}
+
+// compCollisions lists pairs of DIFFERENT universe components whose 64-bit hashes are equal (the tables keyed by a hash are
+// modelled as keyed by the component: such a pair voids that assumption and is reported, not silently tolerated)
+var compCollisions [][2]int
+
+func compKey(c enc.Component) string { return strconv.FormatUint(uint64(c.Typ), 10) + ":" + string(c.Val) }
 
 func init() {
-	for k := 1; k < 32; k++ {
-		h := compOf(k).Hash()
-		if _, dup := compByHash[h]; dup {
-			panic("component hash collision in the universe")
+	byHash := map[uint64]int{}
+	for k := 1; k < nComps; k++ {
+		c := compOf(k)
+		compByKey[compKey(c)] = k
+		h := c.Hash()
+		if o, dup := byHash[h]; dup {
+			compCollisions = append(compCollisions, [2]int{o, k})
+		} else {
+			byHash[h] = k
 		}
-		compByHash[h] = k
 	}
 }
 
 func nmOfEnc(e enc.Name) nm {
 	r := make(nm, len(e))
 	for i, c := range e {
-		k, ok := compByHash[c.Hash()]
+		k, ok := compByKey[compKey(c)]
 		if !ok {
 			k = 999
 		}
@@ -300,6 +328,18 @@ const nFaces = 4 // faces 1..4
 func genUniverse(r *rand.Rand) []nm {
 	// shared-prefix universe: a random prefix-heavy set of at most 40 names, depth 0..4, over 2..4 components
 	width := 2 + r.Intn(3)
+	pool := make([]int, width)
+	for i := range pool {
+		pool[i] = i + 1
+	}
+	if r.Intn(5) < 2 { // typed siblings: same value bytes under different component types (and the generic "a" next to its siblings)
+		cand := []int{9, 10, 11, 12, 13, 14, 1, 15, 16}
+		r.Shuffle(len(cand), func(i, j int) { cand[i], cand[j] = cand[j], cand[i] })
+		pool = append([]int{}, cand[:2+r.Intn(4)]...)
+		if r.Intn(2) == 0 {
+			pool = append(pool, 2)
+		}
+	}
 	size := 4 + r.Intn(37)
 	seen := map[string]bool{}
 	var u []nm
@@ -322,7 +362,7 @@ func genUniverse(r *rand.Rand) []nm {
 			}
 		}
 		if len(n) < 4 {
-			n = append(n, 1+r.Intn(width))
+			n = append(n, pool[r.Intn(len(pool))])
 		}
 		add(n)
 	}
@@ -475,7 +515,12 @@ func genCase(r *rand.Rand, mode string) (caseCfg, []hop) {
 				k := recent[r.Intn(len(recent))]
 				o.name = parseNm(k.n)
 				if k.cbp && r.Intn(2) == 0 && len(o.name) < 4 {
-					o.name = append(append(nm{}, o.name...), 1+r.Intn(3))
+					ext := pick()
+					c := 1 + r.Intn(3)
+					if len(ext) > 0 {
+						c = ext[r.Intn(len(ext))]
+					}
+					o.name = append(append(nm{}, o.name...), c)
 				}
 				switch r.Intn(4) {
 				case 0:
@@ -887,6 +932,17 @@ func runCase(t *testing.T, out *bufio.Writer, k int, src string, cfg caseCfg, op
 		w.line("case %d %s", k, src)
 		w.line("gen %s", cfg)
 		w.line("op init %d %d %s %s %d", time.Now().UnixNano(), cfg.cap, b01(cfg.serve), b01(cfg.admit), int64(cfg.dnlMs)*1000000)
+		used := map[int]bool{}
+		for _, o := range ops {
+			for _, c := range o.name {
+				used[c] = true
+			}
+		}
+		for _, p := range compCollisions {
+			if used[p[0]] && used[p[1]] {
+				w.line("obs collide %d %d %d:%x %d:%x", p[0], p[1], uint64(compOf(p[0]).Typ), compOf(p[0]).Val, uint64(compOf(p[1]).Typ), compOf(p[1]).Val)
+			}
+		}
 		w.dumpState()
 		func() {
 			defer func() {
